@@ -544,6 +544,8 @@ int expr_conv_enumerator(expr * value)
     switch (value->comb.comb_enumtype->type)
     {
         case ENUMTYPE_TYPE_ITEM: 
+            /* an item enumerator is its int index at run time */
+            value->comb.comb = COMB_TYPE_INT;
             return TYPECHECK_SUCC;
         break;
         case ENUMTYPE_TYPE_RECORD:
